@@ -304,6 +304,8 @@ def make_client(name, cfg, timeout=1):
     kw = {"retries": cfg["retries"], "retry_on_empty": bool(cfg["roe"]), "retry_on_invalid": bool(cfg["roi"]), "timeout": timeout}
     if cfg.get("backoff", -1) != -1:
         kw["backoff"] = cfg["backoff"]         # -1 / absent: the library's default
+    if cfg.get("broadcast"):
+        kw["broadcast_enable"] = True
     c = ctor(kw)
     dec = RecClientDecoder()
     c.framer.decoder = dec
